@@ -350,7 +350,9 @@ func streamNeg(c *Ctx) {
 	protos := []string{"connect", "grpc", "grpcweb"}
 	kinds := []string{"unary", "stream"}
 	// handler registration orders: gzip (default) first, then any sequence of the toy names (with repeats)
-	regs := []string{"gzip", "gzip,rle", "gzip,zz,rle", "gzip,rle,zz", "gzip,rle,zz,yy", "gzip,yy,rle,yy", "gzip,zz,gzip"}
+	regs := []string{"gzip", "gzip,rle", "gzip,zz,rle", "gzip,rle,zz", "gzip,rle,zz,yy", "gzip,yy,rle,yy", "gzip,zz,gzip",
+		// names are opaque tokens: letter case is part of the name
+		"gzip,Snappy", "gzip,rle,X-Deflate,x-deflate"}
 	n := 0
 	for _, reg := range regs {
 		// client preference lists: all permutations of subsets of the universe up to 3, plus junk
@@ -368,14 +370,21 @@ func streamNeg(c *Ctx) {
 				}
 			}
 		}
-		accepts = append(accepts, "", "identity", "br", "br,gzip", "br, zz ,rle", ",,gzip", "gzip;q=0.5", "GZIP", "identity,rle")
-		sents := []string{"", "identity", "gzip", "rle", "zz", "br", "GZIP", "x"}
+		accepts = append(accepts, "", "identity", "br", "br,gzip", "br, zz ,rle", ",,gzip", "gzip;q=0.5", "GZIP", "identity,rle",
+			"Snappy", "snappy", "Snappy,gzip", "gzip,Snappy", "X-Deflate", "x-deflate,X-Deflate", "gzip;q=0", "identity, gzip;q=0", "rle;q=0,gzip")
+		sents := []string{"", "identity", "gzip", "rle", "zz", "br", "GZIP", "x", "Snappy", "snappy", "X-Deflate"}
 		for _, acc := range accepts {
 			p, k := protos[n%3], kinds[(n/3)%2]
 			n++
 			sent := ""
 			if r.Chance(25) {
 				sent = sents[r.Intn(len(sents))]
+			}
+			if strings.Contains(reg, "Snappy") || strings.Contains(reg, "X-Deflate") {
+				// with mixed-case names registered, also send with exactly those
+				if r.Chance(40) {
+					sent = []string{"Snappy", "X-Deflate", "x-deflate", "snappy"}[r.Intn(4)]
+				}
 			}
 			negOp(c, fmt.Sprintf("neg proto=%s kind=%s reg=%s sent=%s accept=%s", p, k, reg, hx([]byte(sent)), hx([]byte(acc))))
 		}
